@@ -226,7 +226,14 @@ pub enum Sched {
     Chunks { limits: Vec<Lim>, pause: bool, rebuild: bool, complete_each: bool },
     Complete { limits: Vec<Lim>, budget: Budget },
     /// (delay in microseconds, command 0 = Suspend, 1 = Resume, 2 = Stop)
-    Signal { cmds: Vec<(u16, u8)>, budget: Budget },
+    /// `pauses`: the programme's debug-pause syscalls are live and the driver keeps publishing
+    /// Resume (deterministic suspensions inside one script group, as a Suspend landing there would)
+    Signal {
+        cmds: Vec<(u16, u8)>,
+        budget: Budget,
+        #[serde(default)]
+        pauses: bool,
+    },
 }
 
 fn lim_value(l: &Lim, scale: u64) -> u64 {
@@ -378,7 +385,9 @@ impl<'a> Checker<'a> {
     fn sig(&self, class: &str, default: String) -> String {
         if class == "state-with-unprocessed-pipe-io" {
             "resume:diverges-after-suspension-with-unprocessed-pipe-io".to_string()
-        } else if matches!(class, "vms>4" | "vms>=2" | "single-vm" | "type-id") && self.partial_code_load {
+        } else if (matches!(class, "vms>4" | "vms>=2" | "single-vm" | "type-id") || class.starts_with("debug-pauses:")) && self.partial_code_load {
+            // (signalled runs with live debug pauses: every pause is an iteration boundary at which the
+            // scheduler may suspend another VM into a snapshot, the same root cause)
             "resume:diverges-after-snapshot-of-partial-page-code-load".to_string()
         } else {
             default
@@ -624,19 +633,36 @@ impl<'a> Checker<'a> {
         Ok(())
     }
 
-    fn run_signal(&self, st: &mut Stats, cmds: &[(u16, u8)], budget: &Budget, delay_scale: u64) -> Verdict {
-        let b = match &self.base {
+    fn run_signal(&self, st: &mut Stats, cmds: &[(u16, u8)], budget: &Budget, delay_scale: u64, pauses: bool) -> Verdict {
+        let mut b = match &self.base {
             Outcome::Ok(cost) => budget_value(budget, *cost),
             Outcome::Err(_) => u64::MAX,
         };
-        self.run_signal_with(st, cmds, b, delay_scale, false)
+        if pauses {
+            // live debug pauses are run where the signalled path has no listed finding, so that the
+            // run must equal the baseline exactly: budget >= cost (below it every resume hands out the
+            // full budget again and, in debug builds, the child task asserts) and no Stop (a lost Stop
+            // would leave the next debug pause waiting for a Resume for ever)
+            if let Outcome::Ok(cost) = &self.base {
+                b = b.max(*cost);
+            }
+            let cmds: Vec<(u16, u8)> = cmds.iter().map(|(d, c)| (*d, if *c % 3 == 2 { 1 } else { *c })).collect();
+            return self.run_signal_full(st, &cmds, b, delay_scale, false, true);
+        }
+        self.run_signal_full(st, cmds, b, delay_scale, false, false)
+    }
+
+    fn run_signal_with(&self, st: &mut Stats, cmds: &[(u16, u8)], b: u64, delay_scale: u64, infinite: bool) -> Verdict {
+        self.run_signal_full(st, cmds, b, delay_scale, infinite, false)
     }
 
     /// `infinite`: the programme never terminates on its own (no baseline exists); the command
     /// list ends with Stop and the run must end with Interrupts (or the cycle limit)
-    fn run_signal_with(&self, st: &mut Stats, cmds: &[(u16, u8)], b: u64, delay_scale: u64, infinite: bool) -> Verdict {
+    /// `pauses`: debug-pause syscalls of the programme are live; the command thread keeps publishing
+    /// Resume after its list so that every such suspension is resumed
+    fn run_signal_full(&self, st: &mut Stats, cmds: &[(u16, u8)], b: u64, delay_scale: u64, infinite: bool, pauses: bool) -> Verdict {
         let v = &self.env.v;
-        self.env.skip.store(true, Ordering::SeqCst);
+        self.env.skip.store(!pauses, Ordering::SeqCst);
         let (tx, mut rx) = tokio::sync::watch::channel(ChunkCommand::Resume);
         let done = AtomicBool::new(false);
         let last_stop_at: std::sync::Mutex<Option<std::time::Instant>> = std::sync::Mutex::new(None);
@@ -678,8 +704,12 @@ impl<'a> Checker<'a> {
                 if cmds.last().map(|(_, c)| *c % 3 != 2).unwrap_or(true) {
                     let _ = tx.send(ChunkCommand::Resume);
                 }
+                let resume_again = pauses && cmds.last().map(|(_, c)| *c % 3 != 2).unwrap_or(true);
                 while !done_ref.load(Ordering::SeqCst) {
                     std::thread::sleep(std::time::Duration::from_micros(200));
+                    if resume_again {
+                        let _ = tx.send(ChunkCommand::Resume);
+                    }
                 }
             });
             let panics_before = PANIC_COUNT.load(Ordering::SeqCst);
@@ -822,7 +852,15 @@ impl<'a> Checker<'a> {
                     Ok(())
                 }
             }
-            _ => self.expect_base(st, "signal", if stop_sent { "with-stop" } else { "no-stop" }, &got, &ctx),
+            _ => {
+                let class = match (pauses, stop_sent) {
+                    (false, true) => "with-stop",
+                    (false, false) => "no-stop",
+                    (true, true) => "debug-pauses:with-stop",
+                    (true, false) => "debug-pauses:no-stop",
+                };
+                self.expect_base(st, "signal", class, &got, &ctx)
+            }
         }
     }
 
@@ -1073,7 +1111,7 @@ fn prop_inner(pc: &PropCtx, case: &Case, st: &mut Stats, rt: &tokio::runtime::Ru
         st.label("prog:non-terminating");
         st.eval_n("schedule", case.scheds.len() as u64);
         for sched in &case.scheds {
-            if let Sched::Signal { cmds, budget } = sched {
+            if let Sched::Signal { cmds, budget, .. } = sched {
                 let mut cmds = cmds.clone();
                 if cmds.last().map(|(_, c)| *c % 3 != 2).unwrap_or(true) {
                     cmds.push((150, 2));
@@ -1191,9 +1229,9 @@ fn prop_inner(pc: &PropCtx, case: &Case, st: &mut Stats, rt: &tokio::runtime::Ru
                 st.label("sched:complete");
                 ck.run_complete(st, limits, budget)
             }
-            Sched::Signal { cmds, budget } => {
-                st.label("sched:signal");
-                ck.run_signal(st, cmds, budget, case.delay_scale.max(1) as u64)
+            Sched::Signal { cmds, budget, pauses } => {
+                st.label(if *pauses { "sched:signal+debug-pauses" } else { "sched:signal" });
+                ck.run_signal(st, cmds, budget, case.delay_scale.max(1) as u64, *pauses)
                     .map(|_| Obs::default())
             }
         };
@@ -1258,8 +1296,8 @@ fn sched_strategy(max_delay: u16) -> impl Strategy<Value = Sched> {
             .prop_map(|(limits, pause, rebuild, complete_each)| Sched::Chunks { limits, pause, rebuild, complete_each }),
         2 => (proptest::collection::vec(lim_strategy(), 1..4), budget_strategy())
             .prop_map(|(limits, budget)| Sched::Complete { limits, budget }),
-        2 => (proptest::collection::vec((0u16..max_delay, 0u8..3), 0..7), budget_strategy())
-            .prop_map(|(cmds, budget)| Sched::Signal { cmds, budget }),
+        2 => (proptest::collection::vec((0u16..max_delay, 0u8..3), 0..7), budget_strategy(), any::<bool>())
+            .prop_map(|(cmds, budget, pauses)| Sched::Signal { cmds, budget, pauses }),
     ]
 }
 
@@ -1510,9 +1548,10 @@ fn vm_level_strategy() -> impl Strategy<Value = (u8, u8)> {
 fn signal_sched_strategy() -> impl Strategy<Value = Sched> {
     (
         proptest::collection::vec((0u16..2500, prop_oneof![5 => Just(0u8), 5 => Just(1u8), 1 => Just(2u8)]), 1..8),
-        prop_oneof![4 => Just(Budget::CostMinus1), 2 => Just(Budget::Cost), 1 => Just(Budget::Max), 2 => (128u8..=255).prop_map(Budget::Frac)],
+        prop_oneof![4 => Just(Budget::CostMinus1), 3 => Just(Budget::Cost), 2 => Just(Budget::CostPlus1), 1 => Just(Budget::Max), 2 => (128u8..=255).prop_map(Budget::Frac)],
+        prop::bool::weighted(0.4),
     )
-        .prop_map(|(cmds, budget)| Sched::Signal { cmds, budget })
+        .prop_map(|(cmds, budget, pauses)| Sched::Signal { cmds, budget, pauses })
 }
 
 fn gen_case_strategy(kind: Kind) -> impl Strategy<Value = Case> {
